@@ -219,6 +219,22 @@ Fixpoint c02_late_walk (shutret : bool) (late : list nat) (h : hist) : bool :=
 Definition c02_late_calls_prompt (h : hist) : list tok :=
   check (c02_late_walk false [] h) "after_shutdown:call_waits".
 
+(* ------------------------------------------------------------------ independence probe (harness/batch_purity.cc)
+   The models describe ONE processor; that distinct processors share no hidden state is an assumption, probed at run time by
+   real threads each driving its own processor under ThreadSanitizer.  The only observation the models predict is PURE. *)
+Definition is_purity (l : list tok) : bool := match l with t :: _ => is_tag "PURITY" t | [] => false end.
+Definition spec_purity_ok (obs : list tok) : list tok :=
+  match obs with
+  | [t] => if is_tag "PURE" t then [] else fail "obs:unparsable"
+  | t :: _ => if is_tag "RACE" t then fail "purity:data_race"
+              else if is_tag "DIFFERS" t then fail "purity:result_differs"
+              else if is_tag "HARNESSRACE" t then fail "harness:probe_race"
+              else if is_tag "HANG" t then fail "purity:hang"
+              else if is_tag "CRASH" t then fail "purity:crash"
+              else fail "obs:unparsable"
+  | [] => fail "obs:unparsable"
+  end.
+
 (* ------------------------------------------------------------------ C03 *)
 (* exporter calls never overlap; every batch has between 1 and B records *)
 Fixpoint c03_walk (b : nat) (fly : bool) (h : hist) : list tok :=
